@@ -1,3 +1,3 @@
-CONSTANTS MaxK = 3 Values = {2, 3} Codes = {5, 10} Scope = "run" Mutant = "none"
+CONSTANTS MaxK = 3 Values = {2, 3} Codes = {5, 10} Insts = {1, 2} Scope = "run" Mutant = "none"
 SPECIFICATION Spec
 INVARIANT Emit
